@@ -255,6 +255,8 @@ class BaseEvent(BaseModel, Generic[T_EventResultType]):
 
     # Completion signal
     _event_completed_signal: asyncio.Event | None = PrivateAttr(default=None)
+    # Direct reference to the parent event, so completion can propagate even after the parent left every bus history
+    _event_parent: 'BaseEvent[Any] | None' = PrivateAttr(default=None)
 
     def __hash__(self) -> int:
         """Make events hashable using their unique event_id"""
